@@ -48,7 +48,8 @@ CHECKS.update({
                  "schema-id stability / no reuse after retirement, IPC continuation shape and independent decodability, on interleaved signals, schema changes, dictionary resets, zstd on/off.", "7 C12"),
     "C13": _otap("exploration", "Unbounded-cardinality columns are fed for many batches under every dictionary limit option and reset threshold (overflow, reset and slow-crossing regimes); the sizes of the dictionaries an independent Arrow reader holds after each payload "
                  "are compared by OtapObs.tla with the configured limit and with what the index type can address.", "7 C13"),
-    "C14": _otap("exploration", "The same recorded stream is fed to consumers with a ladder of limits from 16 B to 70 MiB (a consumer is retired at its first refusal); OtapObs.tla checks no panic, every refusal recognisable as the memory-limit error, reported in-use <= limit (recording MeterProvider), "
+    "C14": _otap("model_checking", "Allocator.tla (in-use counter vs. limit, two allocators with Limit1 <= Limit2 on the same requests) is model checked exhaustively for WithinLimit, Accounting, Monotone; TLC-simulated operation sequences are replayed into the real LimitedAllocator and judged step by step by AllocObs.tla. "
+                 "The same recorded stream is fed to consumers with a ladder of limits from 16 B to 70 MiB (a consumer is retired at its first refusal); OtapObs.tla checks no panic, every refusal recognisable as the memory-limit error, reported in-use <= limit (recording MeterProvider), "
                  "monotonicity in the limit, and equality (RoundTrip oracle) of everything decoded under different limits.", "7 C14"),
     "C15": _otap("exploration", "Every producer runs on a CheckedAllocator; histories with schema updates, dictionary overflow / reset / rebuild, mixed signals, re-sent inputs and encode errors in the middle; OtapObs.tla requires balance 0 after Close and byte-identical input before/after every encode.", "7 C15"),
 })
